@@ -139,6 +139,12 @@ def step(ex, st, T):
         raise NotConcrete("iterator value %s" % (k,))
     m = method(T[1])
     a = T[2]
+    if m == "once" and len(a) == 1 and "iter" in T[1]:
+        yield from step(ex, st, ("citer", (a[0],), 0))
+        return
+    if m == "empty" and len(a) == 0 and "iter" in T[1]:
+        yield from step(ex, st, ("citer", (), 0))
+        return
     if m in ("iter", "iter_mut") and len(a) == 1:
         items = _array_items(ex, st, a[0])
         if items is None:
